@@ -111,7 +111,8 @@ var elemTypes = []reflect.Type{nil, tof(int(0)), tof(""), tof((*int)(nil)), anyT
 	tof(map[string]int(nil)), tof(func() {}), tof((chan int)(nil)), tof(uintptr(0)), tof((**int)(nil)), tof(SP{}), tof(false),
 	tof(int8(0)), tof(MyInt(0)), tof(SE{}), tof(uint8(0)), tof([2]int{}), tof((*S1)(nil)), tof([]string(nil)), tof(Se{}), tof((*func())(nil))}
 var mapTypes = []reflect.Type{nil, tof(map[string]int(nil)), tof(map[string]any(nil)), tof(map[int]string(nil)), tof(map[string]int64(nil)),
-	tof(map[string][]int(nil)), tof(map[string]*int(nil)), tof(map[string]S1(nil)), tof(map[float64]int(nil))}
+	tof(map[string][]int(nil)), tof(map[string]*int(nil)), tof(map[string]S1(nil)), tof(map[float64]int(nil)),
+	tof(map[MyStr]int(nil)), tof(map[MyInt]string(nil))} // 9, 10: keys of a declared type (same kind as 1 / 3, another type)
 var structTypes = []reflect.Type{nil, tof(S1{}), tof(SP{}), tof(SE{}), tof(Se{}), tof(S1b{}), tof(SA{}), tof(SN{}), tof(SPtr{}), tof(SL{}),
 	tof(S0{}), tof(S1c{}), tof(SE2{}), tof(SF{}), tof(SPP{}), tof(SEn{}), tof(Emb{}), tof(Emb2{}), tof(emb{}), tof(SQ{}), tof(SE1{})}
 var funcTypes = []reflect.Type{nil, tof(func() {}), tof(func() int { return 0 }), tof(func(int) string { return "" })}
@@ -1064,6 +1065,34 @@ func genEqUnit(r *rand.Rand, id, tier string) string {
 			return V{T: 'N'}
 		}
 		return v
+	}
+	if r.Intn(25) == 0 {
+		// two maps with the same keys and values whose key TYPES differ (same kind): a type mismatch, reported as such
+		n := 1 + r.Intn(3)
+		x := &EVv{C: 'M', Ty: 9}
+		y := &EVv{C: 'M', Ty: 1}
+		if r.Intn(2) == 0 {
+			x.Ty, y.Ty = 10, 3
+		}
+		for i := 0; i < n; i++ {
+			if x.Ty == 9 {
+				k := fmt.Sprintf("k%d", i)
+				x.Xs = append(x.Xs, &EVv{C: 't', Ty: 2, S: k})
+				y.Xs = append(y.Xs, &EVv{C: 'p', Ty: 16, S: k})
+				x.Vs = append(x.Vs, &EVv{C: 'p', Ty: 1, S: strconv.Itoa(i)})
+				y.Vs = append(y.Vs, &EVv{C: 'p', Ty: 1, S: strconv.Itoa(i)})
+			} else {
+				x.Xs = append(x.Xs, &EVv{C: 't', Ty: 1, S: strconv.Itoa(i)})
+				y.Xs = append(y.Xs, &EVv{C: 'p', Ty: 1, S: strconv.Itoa(i)})
+				x.Vs = append(x.Vs, &EVv{C: 'p', Ty: 16, S: "v"})
+				y.Vs = append(y.Vs, &EVv{C: 'p', Ty: 16, S: "v"})
+			}
+		}
+		a, b := V{T: 'E', E: x}, V{T: 'E', E: y}
+		if r.Intn(2) == 0 {
+			a, b = b, a
+		}
+		return a.String() + " | " + b.String() + " | other"
 	}
 	a := leaf()
 	switch k := r.Intn(10); {
